@@ -34,8 +34,10 @@ def _mirror_name(n):
 def _mk_mirror(kind_a, kind_b, guards):
     def body(env):
         sym = env.mode == "sym"
-        eqa, ma, ta, sa = c08.build(env, kind_a, guards)
-        eqb, mb, tb, sb = c08.build(env, kind_b, guards)
+        capa, capb = {}, {}
+        # distinct private-flux limits for the lower and the upper region, exchanged in the mirrored case
+        eqa, ma, ta, sa = c08.build(env, kind_a, guards, capture=capa, pf=(0.95, 0.85))
+        eqb, mb, tb, sb = c08.build(env, kind_b, guards, capture=capb, pf=(0.85, 0.95) if kind_a != kind_b else (0.95, 0.85))
         env.witness("both_built")
         # mirrored per-leg settings
         pairs = [("ny_inner_lower_divertor", "ny_inner_upper_divertor"), ("ny_outer_lower_divertor", "ny_outer_upper_divertor")]
@@ -67,6 +69,19 @@ def _mk_mirror(kind_a, kind_b, guards):
                 mir = lambda c: None if c is None else (_mirror_name(c[0]), c[1])  # noqa
                 env.claim("mirror_swaps_upper_and_lower_connections:" + nb, cb["upper"] == mir(ca["lower"]) and cb["lower"] == mir(ca["upper"]))
                 env.claim("mirror_keeps_radial_connections:" + nb, cb["inner"] == mir(ca["inner"]) and cb["outer"] == mir(ca["outer"]))
+        # radial segment descriptors (limits and separatrix gradients handed to the radial grid function) are mirror images too
+        if kind_a != kind_b:
+            sega, segb = capa["segments"], capb["segments"]
+            env.claim("same_segment_names_up_to_mirror", sorted(_mirror_name(n) for n in sega) == sorted(segb))
+            for n, da in sega.items():
+                db = segb.get(_mirror_name(n))
+                if db is None:
+                    continue
+                for key in ("psi_start", "psi_end", "grad_start", "grad_end"):
+                    env.claim("segment_has_same_keys:%s" % n, (key in da) == (key in db))
+                    if key in da and key in db:
+                        env.claim_eq("mirrored_segment_%s:%s" % (key, n), db[key], da[key])
+                env.claim("mirrored_segment_nx:%s" % n, ZB(zi(da["nx"]) == zi(db["nx"])))
         # written integers
         g = guards
         nyng = zi(ma.ny_noguards)
